@@ -156,6 +156,31 @@ def check(run: Run) -> None:
         R.k1(run, "C18.a2", fa, roles, spec_adv, role_calls={"EVERASE": EV + r"\.erase", "TAGERASE": TG + r"\.erase"},
              invalidate={EV + r"\.erase": "E"}, what="NodeScheduler::advance erases tag with its event")
 
+    with run.obligation("C18.a3", "K1", "NodeScheduler::advance pops iff first<=now and ALWAYS re-arms the graph at the earliest remaining "
+                        "event (also when nothing fired, e.g. after the firing request was moved or cancelled during evaluation)"):
+        fa = _method(run, "advance")
+        roles = [Role("SNULL", "bool", r"nullptr==state_"), Role("GNULL", "bool", r"graph_==nullptr"),
+                 Role("EMPTY0", "bool", EV + r"\.empty\(\)", epoch=("E", 0)),
+                 Role("EMPTY1", "bool", EV + r"\.empty\(\)", epoch=("E", 1), required=False),
+                 Role("FIRST0", "t", EV + r"\.begin\(\)->first", epoch=("E", 0)),
+                 Role("FIRST1", "t", EV + r"\.begin\(\)->first", epoch=("E", 1), required=False),
+                 Role("NOW", "t", r"now_")]
+
+        def spec_rearm(v):
+            if v.b("SNULL"):
+                return Expect(calls=[])
+            pop = (not v.b("EMPTY0")) and v.le("FIRST0", "NOW")
+            calls = []
+            if pop:
+                calls.append(("ERASE", (ANY,)))
+                if not v.b("GNULL") and not v.b("EMPTY1"):
+                    calls.append(("SCHEDULE", (("sym", r"node_index_"), "FIRST1")))
+            elif not v.b("GNULL") and not v.b("EMPTY0"):
+                calls.append(("SCHEDULE", (("sym", r"node_index_"), "FIRST0")))
+            return Expect(calls=calls)
+        R.k1(run, "C18.a3", fa, roles, spec_rearm, role_calls={"ERASE": EV + r"\.erase", "SCHEDULE": r"graph_->schedule_node"},
+             invalidate={EV + r"\.erase": "E"}, what="NodeScheduler::advance re-arm")
+
     # ---- b/c. schedule(DateTime) table ------------------------------------------------------------
     with run.obligation("C18.b", "K1", "schedule(when): admission (started: when>ref; not started: when>=ref; wall-clock alarms "
                         "re-timed to max(now+MIN_TD, ref) / ref), tagged replace, insert, and graph told iff new first < previous first"):
@@ -355,6 +380,7 @@ VARIANTS = [
     {"id": "a2-pop-keeps-event", "expect": "C18.a2", "edits": [{"file": SCHED, "find": "            state_->events.erase({when, it->first});\n", "replace": ""}]},
     {"id": "a2-unschedule-keeps-tag", "expect": "C18.a2", "edits": [{"file": SCHED, "find": "            state_->tags.erase(ev.second);\n", "replace": ""}]},
     {"id": "a2-advance-tag", "expect": "C18.a2", "edits": [{"file": SCHED, "find": "if (!tag.empty()) { state_->tags.erase(tag); }", "replace": "if (tag.empty()) { state_->tags.erase(tag); }"}]},
+    {"id": "a3-rearm-only-if-fired", "expect": "C18.a3", "edits": [{"file": SCHED, "find": "            if (graph_ != nullptr && !state_->events.empty())\n            {\n                graph_->schedule_node(node_index_, state_->events.begin()->first);", "replace": "            if (graph_ != nullptr && !state_->events.empty() && state_->events.begin()->first > now_ + MIN_TD)\n            {\n                graph_->schedule_node(node_index_, state_->events.begin()->first);"}]},
     {"id": "a-foreign-writer", "expect": "C18.a", "edits": [{"file": NODE, "find": "                    sched.advance();  // consume the fired event(s) and re-arm the next", "replace": "                    scheduler->events.erase(scheduler->events.begin());\n                    sched.advance();"}]},
     {"id": "d-next-max", "expect": "C18.d", "edits": [{"file": SCHED, "find": "? state_->events.begin()->first : MIN_DT;", "replace": "? state_->events.rbegin()->first : MIN_DT;"}]},
     {"id": "d-now-le", "expect": "C18.d", "edits": [{"file": SCHED, "find": "!state_->events.empty() && state_->events.begin()->first == now_;", "replace": "!state_->events.empty() && state_->events.begin()->first <= now_;"}]},
